@@ -269,7 +269,11 @@ def _chain(acc, kind, seed, word, n):
         op = word[k % len(word)]
         prev_th = float(p[2]) if kind == "SE2" else None
         prev = p
-        p = apply(kind, p, op, opnd, dl)
+        try:
+            p = apply(kind, p, op, opnd, dl)
+        except Exception as ex:
+            acc.violation({"t": "node", "kind": kind, "seed": seed, "pose": I.comps(prev), "op": list(op), "depth": k + 1, "word": [list(w) for w in word]}, ["operation %r raised %s in a periodic chain" % (op, type(ex).__name__)])
+            break
         acc.transitions += 1
         # translations of periodic chains may grow without bound; the invariants concern the rotation
         bad = check_node(kind, p, k + 1, op, prev_th, opnd_c, dl_c)
